@@ -265,6 +265,7 @@ func (c01) Generate(r *sim.Rand, tier string) *sim.Scenario {
 	}
 	if r.Bool(pWide) {
 		wide = true
+		sc.Cfg["wide"] = 1
 		mode = 3
 		linear = false
 		nclients = 1
@@ -1233,7 +1234,7 @@ func (prop c01) Execute(sc *sim.Scenario) *sim.Outcome {
 	}
 
 	/* 2b. cone-split twin: partial unfolding that scales to any depth */
-	if len(p.roots) == 1 && p.tracked[p.roots[0]] && (!unfoldedAll || sc.Seed%4 == 0) && sc.Cfg["deep"] != 1 {
+	if len(p.roots) == 1 && p.tracked[p.roots[0]] && (!unfoldedAll || sc.Seed%4 == 0) && sc.Cfg["deep"] != 1 && (len(sc.Steps) <= 200 || sc.Cfg["wide"] == 1) {
 		rc := p.reach(p.roots[0])
 		cons := map[int]int{}
 		for _, st := range sc.Steps {
